@@ -63,6 +63,18 @@ class Frame:
         self.env = env if env is not None else (parent.env if parent is not None else {})
         self.ncx = ncx if ncx is not None else (parent.ncx if parent is not None else None)      # gives access to the crate's bodies
         self._busy = set()
+        self._reach = None
+        self._reach_busy = False
+
+    def live_blocks(self):
+        """blocks of self.f some path can reach under this frame (None while that is being computed, or without access to the crate)"""
+        if self._reach is None and not self._reach_busy and self.ncx is not None and self.f is not None:
+            self._reach_busy = True
+            try:
+                self._reach = self.ncx.reachable(self.f, self)
+            finally:
+                self._reach_busy = False
+        return self._reach
 
 
 def _path_root(t):
@@ -150,9 +162,12 @@ def _through_call(t, base, ctx):
     summ = SUMMARIES.get(base[1])
     if summ is not None:
         return summ(t, base, ctx)
-    if not ncx.prog.straight_line(h):
-        # the callee writes through a reference or a projection: the value at its return site may have been modified in place
-        raise Uneval('callee mutates in place')
+    strict = not ncx.prog.straight_line(h)
+    # strict: the callee writes through a reference or a projection somewhere, so a value at its return site may have been modified in
+    # place after it was built.  Then only a dimension of a matrix that the return site itself constructs (`_0 = Matrix::new(buf, r, c)`,
+    # scalars passed by value, nothing runs after the call) is read
+    tt = _strip(t)
+    shape_only = tag(tt) == 'field' and _strip(tt[1]) == base and tt[2] in (1, 2)
     key = ('call', base)
     if key in ctx._busy:
         raise Uneval('recursive call')
@@ -165,6 +180,8 @@ def _through_call(t, base, ctx):
             if d[1] not in live:
                 continue
             rt = h.rvalue_term(d[3], d[1]) if d[0] == 'assign' else h.call_term(d[2], d[1])
+            if strict and not (d[0] == 'call' and shape_only and tag(rt) == 'call' and rt[1] in SUMMARIES):
+                raise Uneval('callee mutates in place')
             vals.append(tev(_rebase(t, base, rt), sub))
         return _agree(vals)
     finally:
@@ -182,7 +199,10 @@ def _through_local(t, base, ctx):
     ctx._busy.add(key)
     try:
         vals = []
+        live = ctx.live_blocks()
         for s_ in sts:
+            if live is not None and s_.bb not in live:
+                continue
             if any(guard_value(canon_guard(c, v), ctx) is False for c, v in f.guards().get(s_.bb, [])):
                 continue
             vals.append(tev(_rebase(t, base, s_.value), ctx))
@@ -412,6 +432,18 @@ def tev(t, ctx):
         except (OverflowError, ValueError, ZeroDivisionError):
             raise Uneval('f64 method range')
         raise Uneval('f64 method ' + n)
+    if k == 'call' and t[1] and 'PartialEq<[U; N]> for [T; N]>::' in t[1] and len(t[2]) == 2 and short(t[1]) in ('eq', 'ne'):
+        # equality of two fixed-size arrays (`assert_eq!(m.shape(), [r, c])`): element by element, each side a literal or something
+        # whose i-th component can be read (a helper returning a literal)
+        a_, b_ = _strip(t[2][0]), _strip(t[2][1])
+        lit = a_ if tag(a_) == 'agg' else (b_ if tag(b_) == 'agg' else None)
+        if lit is None:
+            raise Uneval('array equality without a literal side')
+        same = True
+        for i in range(len(lit[3])):
+            if tev(('field', a_, i, None), ctx) != tev(('field', b_, i, None), ctx):
+                same = False
+        return same if short(t[1]) == 'eq' else not same
     if k == 'call' and t[1] and short(t[1]) in ('is_empty',) and len(t[2]) == 1:
         return tev(('len', t[2][0]), ctx) == 0
     if k == 'call' and t[1] and short(t[1]) == 'contains' and len(t[2]) == 2 and tag(_strip(t[2][0])) == 'constx':
@@ -460,9 +492,10 @@ def _phi(t, ctx):
     ctx._busy.add(key)
     try:
         vals = []
+        live = ctx.live_blocks()
         for s_ in sts:
-            dead = False
-            for c, v in f.guards().get(s_.bb, []):
+            dead = live is not None and s_.bb not in live
+            for c, v in ([] if dead else f.guards().get(s_.bb, [])):
                 if guard_value(canon_guard(c, v), ctx) is False:
                     dead = True
                     break
